@@ -532,7 +532,6 @@ class Oracle:
         # a history that begins before any task manager exists: what is installed then is armed
         # when the manager appears — each task at its LAST time, in the order of the LAST installs
         self.pre = bool(scn.get("premgr"))
-        self.lenient = bool(scn.get("lenient"))
         self.pre_armed = {}               # tid -> order of its last install while there was no manager
 
     def save(self, k):
@@ -576,18 +575,13 @@ class Oracle:
         if self.pre and op in ("mk", "once"):
             # the manager appears (TaskManager(), or the first run_once())
             self.pre = False
-            if self.lenient:
-                # (one suspend of a task installed twice leaves it listed: take the schedule as it is)
-                for due, _n, tid in sorted(dg["heap"], key=lambda e: e[1]):
-                    self.arm(tid, due)        # (lenient histories always create the manager with "mk")
-            else:
-                at = now0 if op == "mk" else now0 + req["d"] // self.tpu
-                for tid in sorted(self.pre_armed, key=self.pre_armed.get):
-                    if self.tasks[tid]["rec"]:
-                        self.arm(tid, self.grid_next(tid, at))
-                        self.pending[tid][2] = False
-                    else:
-                        self.arm(tid, self.tt[tid])
+            at = now0 if op == "mk" else now0 + req["d"] // self.tpu
+            for tid in sorted(self.pre_armed, key=self.pre_armed.get):
+                if self.tasks[tid]["rec"]:
+                    self.arm(tid, self.grid_next(tid, at))
+                    self.pending[tid][2] = False
+                else:
+                    self.arm(tid, self.tt[tid])
         elif self.pre:
             raised = any(e[0] == "raised" for e in rep["out"])
             if op == "at":
@@ -603,7 +597,11 @@ class Oracle:
                 if self.iv[t]:
                     self.pre_armed[t] = self.inst; self.inst += 1
             elif op == "suspend":
+                # suspended is suspended, manager or not: the task must not be armed later, and
+                # suspending a task that is not scheduled is a silent no-op as with a manager
                 self.pre_armed.pop(t, None)
+                if raised:
+                    fail("pre-manager", "suspend_task before the manager exists raised %r" % (rep["out"],))
             if op in ("at", "bare", "rec") and raised and t in self.pre_armed and op != "bare" and \
                     not (op == "rec" and not self.iv[t]):
                 fail("pre-manager", "install before the manager exists raised %r" % (rep["out"],))
@@ -1412,8 +1410,8 @@ def premgr_scenarios(ctx):
     sequence of up to 4 (quick) / 5 (thorough) operations over {install at D, install at 2D,
     re-install as is, suspend} x 3 tasks (canonical task naming), then the manager is created —
     by TaskManager(), by TaskManager() twice, or by the first core.run_once() — and time passes.
-    Expected: every task armed at its LAST time, in the order of the LAST installs.  lenient: one
-    suspend of a task listed twice leaves it listed (transcribed, not asserted by the oracle)."""
+    Expected: every task armed at its LAST time, in the order of the LAST installs; a task
+    suspended after its last install is not armed."""
     L = 4 if ctx.quick else 5
     tasks = [dict(PLAIN, kind=k) for k in (0, 2, 5)]
     tails = [
@@ -1424,63 +1422,44 @@ def premgr_scenarios(ctx):
     ]
     scns = []
 
-    def rec(ops, k, lst, lenient):
+    def rec(ops, k):
         if ops:
             tail = tails[len(scns) % len(tails)]
-            if lenient and tail[0]["op"] != "mk" and tail[1]["op"] != "mk":
-                tail = tails[0]
-            scn = {"tpu": 1, "premgr": True, "tasks": tasks, "ops": ops + [dict(o) for o in tail]}
-            if lenient:
-                scn["lenient"] = True
-            scns.append(scn)
+            scns.append({"tpu": 1, "premgr": True, "tasks": tasks, "ops": ops + [dict(o) for o in tail]})
         if len(ops) == L:
             return
         for t in range(min(k + 1, 3)):
             k2 = max(k, t + 1)
             for o in ({"op": "at", "t": t, "when": D}, {"op": "at", "t": t, "when": 2 * D},
                       {"op": "bare", "t": t}, {"op": "suspend", "t": t}):
-                lst2, len2 = lst, lenient
-                if o["op"] == "at" or (o["op"] == "bare" and any(p["op"] == "at" and p["t"] == t for p in ops)):
-                    lst2 = lst + [t]
-                elif o["op"] == "suspend" and t in lst:
-                    len2 = lenient or lst.count(t) >= 2
-                    i = lst.index(t)
-                    lst2 = lst[:i] + lst[i + 1:]
-                rec(ops + [o], k2, lst2, len2)
-    rec([], 0, [], False)
+                rec(ops + [o], k2)
+    rec([], 0)
     # with a recurring task, deferred functions, the calls that are refused without a manager
     rng = ctx.sub_rng("c14-premgr")
     tasks2 = [dict(PLAIN, kind=1), dict(PLAIN, kind=3), {"rec": True, "raises": False, "defers": [], "kind": 0}]
     for n in range(120 if ctx.quick else 1500):
-        ops, lst, lenient, ids = [], [], False, 1
+        ops, ids = [], 1
         for _ in range(rng.randrange(2, 9)):
             r = rng.random()
             t = rng.randrange(2)
             if r < 0.35:
-                ops.append({"op": "at", "t": t, "when": rng.choice([D, 2 * D])}); lst.append(t)
+                ops.append({"op": "at", "t": t, "when": rng.choice([D, 2 * D])})
             elif r < 0.45:
                 ops.append({"op": "bare", "t": t})
-                if any(p["op"] == "at" and p["t"] == t for p in ops):
-                    lst.append(t)
             elif r < 0.60:
                 t = rng.randrange(3)
                 ops.append({"op": "suspend", "t": t})
-                if t in lst:
-                    lenient = lenient or lst.count(t) >= 2
-                    lst.remove(t)
             elif r < 0.72:
-                ops.append({"op": "rec", "t": 2, "iv": 300000, "off": rng.choice([None, 50000])}); lst.append(2)
+                ops.append({"op": "rec", "t": 2, "iv": 300000, "off": rng.choice([None, 50000])})
             elif r < 0.78:
                 ops.append({"op": rng.choice(["after", "resume"]), "t": t, "d": D})
             elif r < 0.90:
                 ops.append({"op": "defer", "f": {"id": ids, "r": rng.random() < 0.3, "k": [], "kind": rng.randrange(KINDS)}}); ids += 1
             else:
                 ops.append({"op": "tick", "d": rng.choice([G, D])})
-        tail = tails[0] if lenient else tails[n % 3]
-        scn = {"tpu": 1, "premgr": True, "tasks": tasks2, "ops": ops + [dict(o) for o in tail] + [{"op": "once", "d": D}]}
-        if lenient:
-            scn["lenient"] = True
-        scns.append(scn)
+        tail = tails[n % 3]
+        scns.append({"tpu": 1, "premgr": True, "tasks": tasks2,
+                     "ops": ops + [dict(o) for o in tail] + [{"op": "once", "d": D}]})
     return scns
 
 
